@@ -3,7 +3,12 @@
    what the real builds left behind, system-call traces of real builds checked
    against the population protocols. *)
 From Apko Require Export Base.Prelude Model.Cache Spec.CacheSpec.
+From Apko Require Import Generated.C19Cache.
 Open Scope string_scope. Open Scope list_scope.
+
+(* the order of cachePackage's AdvertiseCachedFile calls in the source of this run
+   (control section first = the code today; last = with fixes/C19-F2.patch) *)
+Definition code_ctl_last : bool := ctl_last_of_calls cache_package_calls.
 
 (* ---- listings ---------------------------------------------------------------- *)
 Record listing_case := { lc_tab : origin_table; lc_listing : listing }.
@@ -73,7 +78,7 @@ Definition model_build (d : disk) (o : nat) (b : bspec) : disk * bool :=
       | _ => (run_prog d1 (open_tar (S o) (b_pdir b) (a_dath a)) None, true)
       end
   | Miss =>
-      let prog := populate_package (S o) (b_pdir b) a in
+      let prog := populate_package_ord code_ctl_last (S o) (b_pdir b) a in
       match b_crash b with
       | CrashPkg k => (run_prog d1 prog (Some k), false)
       | _ => (run_prog d1 prog None, true)
@@ -135,8 +140,8 @@ Inductive tbuilder :=
 Definition tprog (origin : path -> content) (o : nat) (b : tbuilder) : list astep :=
   match b with
   | TIndex dir e => populate_index o dir e (origin (PIndex dir e))
-  | TPackage dir a => prog_of o (BPackage dir a)
-  | TReader dir dath => prog_of o (BReader dir dath)
+  | TPackage dir a => prog_of_ord code_ctl_last o (BPackage dir a)
+  | TReader dir dath => prog_of_ord code_ctl_last o (BReader dir dath)
   end.
 Record trace_case := {
   tc_tab : origin_table;
